@@ -832,10 +832,15 @@ impl EncodingVersion for EncodingVersion1 {
         let pid = member_id as u16 + (m_flag << 14);
         serializer.serialize_primitive_type(&pid);
         let ssize = Ssize::new(serializer);
+        let origin = ssize.serializer.writer.position;
+        let value_start = ssize.serializer.writer.buffer.len();
         ssize.serializer.push_origin_0();
         if v.get_value(member_id).is_ok() {
             ssize.serializer.serialize_value(v, member_id).unwrap();
         }
+        // POP( ORIGIN ): what follows the member is aligned relative to the enclosing origin again
+        ssize.serializer.writer.position =
+            origin + (ssize.serializer.writer.buffer.len() - value_start);
         ssize.write_ssize();
         Ok(())
     }
